@@ -36,7 +36,7 @@ ASSUMPTIONS = ['same Verilog engine assumptions as C01',
                'differs from the first text beyond instance ids it is compared with a fresh py4hw block over every input sequence of length <= 3',
                'probe programs use constructs outside the subset (/, **, chained comparisons, min/max/abs, unary +, in): refusal is the expected '
                'answer; if text is returned it must behave like the Python (floats only flow into comparisons)']
-BOUNDS = {'quick': 'library blocks + depth-1 expressions in 6 templates + 30 statement-structure programs + 42 must-refuse probes at one width combination; state cap 400 per program',
+BOUNDS = {'quick': 'library blocks + depth-1 expressions in 6 templates + 39 statement-structure programs (incl. ternaries as operands) + 42 must-refuse probes at one width combination; state cap 400 per program',
           'thorough': 'adds depth-2 expressions (every operator pair in both nesting positions) and 4 width combinations; state cap 2000'}
 CHUNK = 30
 
